@@ -30,14 +30,15 @@ impl Prop for C10 {
             patterns: (1, 4),
             lookahead_pct: gen::draw_lookahead_pct(rng),
             inputs: (1, 2),
-            input_len: (0, 40),
+            input_len: gen_input_len(rng, 40),
+            allow_empty_mode: true,
             newline_rich: false,
             ..Knobs::default()
         };
         gen::gen_world(rng, &k).world
     }
     fn new_gen<'w>(&self, world: &'w World, rng: &mut Rng) -> Box<dyn Gen + 'w> {
-        Box::new(Gen10 { m: GenModel::new(world, 1, 2), len: rng.range(8, 50) })
+        Box::new(Gen10 { m: GenModel::new(world, 1, 2), len: gen_history_len(rng, 8, 50) })
     }
     fn new_exec<'w>(&self, world: &'w World) -> Box<dyn Exec + 'w> {
         Box::new(Exec10 { world, scanners: vec![], iters: vec![] })
